@@ -93,7 +93,7 @@ def annotations(ncells, max_seg, labels, unit=1.0, start=0.0):
     return out
 
 
-def splits(ann, unit, respell=None, other=None):
+def splits(ann, unit, respell=None, other=None, step=2):
     """All annotations obtained by cutting one interval at an interior half-cell point (same label on both
     pieces; optionally an equivalent respelling on the second piece).  With `other` (the opposite annotation) the
     cut points additionally include b - 2^-11 and b + 2^-11 for every boundary b of `other` (a refinement whose new
@@ -103,10 +103,10 @@ def splits(ann, unit, respell=None, other=None):
     eps = Fr(1, 2048)
     for i, (s, e) in enumerate(iv):
         cands = []
-        c = Fr(s) + Fr(unit) / 2
+        c = Fr(s) + Fr(unit) / step
         while c < Fr(e):
             cands.append(c)
-            c += Fr(unit) / 2
+            c += Fr(unit) / step
         if other is not None:
             for b in sorted(set(Fr(x) for seg in other[0] for x in seg)):
                 for c in (b - eps, b + eps):
@@ -235,16 +235,32 @@ def hier_states(unit, phase):
     return [(top, l) for l in lv1]
 
 
+def hier_states_offgrid(unit, phase):
+    """the same hierarchies with every interior boundary of level 1 moved off the frame grid (+ unit/4 with a frame
+    of unit/2; the common span stays [0, 4 unit]): a same-label cut may then leave a piece shorter than a frame, or
+    one whose two ends fall into the same frame"""
+    out = []
+    for top, (iv, labs) in hier_states(unit, phase):
+        if len(iv) < 2:
+            continue
+        end = iv[-1][1]
+        mv = lambda t: t if t in (0.0, end) else t + unit / 4.0  # noqa
+        out.append((top, (tuple((mv(a), mv(b)) for a, b in iv), labs)))
+    return out
+
+
 def shard_hier(arg):
-    refs, ests, unit, fs = arg
+    refs, ests, unit, fs = arg[:4]
+    fine = len(arg) > 4 and arg[4]
     acc = core.Acc(PID)
     for ref in refs:
         for est in ests:
             acc.states += 1
             edges = []
-            for side, h in (("ref", ref), ("est", est)):
+            for side, h, o in (("ref", ref, est), ("est", est, ref)):
                 for lvl in (0, 1):
-                    for label, new in splits(h[lvl], unit):
+                    # fine: cuts at quarter cells (pieces shorter than the frame) and next to the other side's boundaries
+                    for label, new in (splits(h[lvl], unit, other=o[1], step=4) if fine else splits(h[lvl], unit)):
                         nh = h[:lvl] + (new,) + h[lvl + 1:]
                         edges.append((side, "L%d:%s" % (lvl, label), nh))
             if edges:
@@ -253,6 +269,8 @@ def shard_hier(arg):
                 acc.tick(lambda: {"kind": "split", "which": "hier", "ref": ref, "est": est, "side": side, "edge": label,
                                   "new": nh, "frame_size": fs})
                 acc.counters["split_edges:hier"] += 1
+                if fine:
+                    acc.counters["split_edges:hier_offgrid"] += 1
                 check_split(acc, "hier", ref, est, side, label, nh, fs)
     return acc
 
@@ -312,6 +330,9 @@ def run(run):
     hs = hier_states(1.0, ph)
     run.explore("hierarchy.lmeasure split edges", __name__, "shard_hier",
                 [(ch, hs if thorough else hs[::3], 1.0, 0.5) for ch in core.chunks(hs, 32)])
+    ho = hier_states_offgrid(1.0, ph)
+    run.explore("hierarchy.lmeasure split edges, level-1 boundaries off the frame grid, quarter-cell cuts", __name__,
+                "shard_hier", [(ch, ho if thorough else ho[::3], 1.0, 0.5, True) for ch in core.chunks(ho, 32)])
     run.require_nonvacuous("weights.all_comparable_are_1", "weights.all_comparable_are_0", "weights.some_incomparable",
-                           "split_edges:chord", "split_edges:segment", "split_edges:hier",
+                           "split_edges:chord", "split_edges:segment", "split_edges:hier", "split_edges:hier_offgrid",
                            "split_edges_with_respelled_piece", "split_edges_near_a_boundary_of_the_other_side")
